@@ -38,14 +38,14 @@ MANIFEST = {
 
 PLAN = {
     # prop: tier: (mc configs, (tlc scenarios n, depth, overrides), [(generator profile, n)])
-    "C01": {"quick": (["MC_Processor_quick.cfg"], (150, 14, {}), [("aggregation", 250)]),
-            "thorough": (["MC_Processor_thorough.cfg"], (3000, 18, {}), [("aggregation", 6000)])},
-    "C02": {"quick": (["MC_Processor_quick.cfg"], (150, 14, {"MaxBad": 1, "MaxInbound": 1}), [("aggregation", 150), ("permutations", 40)]),
-            "thorough": (["MC_Processor_thorough.cfg"], (3000, 18, {"MaxBad": 1, "MaxInbound": 1}), [("aggregation", 4000), ("permutations", 400)])},
-    "C03": {"quick": (["MC_Processor_quick.cfg"], (100, 12, {"MaxBad": 4, "MaxInbound": 0}), [("byzantine", 250)]),
-            "thorough": (["MC_Processor_thorough.cfg"], (2000, 16, {"MaxBad": 6, "MaxInbound": 0}), [("byzantine", 5000)])},
-    "C13": {"quick": (["MC_Processor_quick.cfg"], (150, 14, {"TimeSteps": "{31, 301, 3601}"}), [("adversarial", 300)]),
-            "thorough": (["MC_Processor_quick.cfg"], (3000, 20, {"TimeSteps": "{31, 301, 3601}"}), [("adversarial", 8000)])},
+    "C01": {"quick": (["MC_Processor_quick.cfg"], (150, 14, {}), [("aggregation", 200), ("setchange", 150)]),
+            "thorough": (["MC_Processor_thorough.cfg"], (3000, 18, {}), [("aggregation", 6000), ("setchange", 4000)])},
+    "C02": {"quick": (["MC_Processor_quick.cfg"], (150, 14, {"MaxBad": 1, "MaxInbound": 1}), [("aggregation", 150), ("setchange", 150), ("permutations", 40)]),
+            "thorough": (["MC_Processor_thorough.cfg"], (3000, 18, {"MaxBad": 1, "MaxInbound": 1}), [("aggregation", 4000), ("setchange", 4000), ("permutations", 400)])},
+    "C03": {"quick": (["MC_Processor_quick.cfg"], (100, 12, {"MaxBad": 4, "MaxInbound": 0}), [("byzantine", 250), ("setchange", 100)]),
+            "thorough": (["MC_Processor_thorough.cfg"], (2000, 16, {"MaxBad": 6, "MaxInbound": 0}), [("byzantine", 5000), ("setchange", 2000)])},
+    "C13": {"quick": (["MC_Processor_quick.cfg"], (150, 14, {"TimeSteps": "{31, 301, 3601}"}), [("adversarial", 300), ("cleanup", 100), ("setchange", 60)]),
+            "thorough": (["MC_Processor_quick.cfg"], (3000, 20, {"TimeSteps": "{31, 301, 3601}"}), [("adversarial", 8000), ("cleanup", 2000), ("setchange", 2000)])},
     "C14": {"quick": (["MC_Processor_cleanup_quick.cfg"], (150, 18, {"TimeSteps": "{30, 270, 300, 3600}", "MaxBad": 0, "MaxUpd": 1, "SetIdxs": "{0}"}),
                       [("cleanup", 250)]),
             "thorough": (["MC_Processor_cleanup_thorough.cfg"], (2000, 24, {"TimeSteps": "{30, 270, 300, 3600}", "MaxBad": 0, "MaxUpd": 1, "SetIdxs": "{0}"}),
